@@ -304,3 +304,46 @@ n('C12', 'jtvec: reset order changed', SIMS,
 n('C12', 'clean: list order', SIMS,
   "            for name in ['_gradient', '_misfit']:",
   "            for name in ['_misfit', '_gradient']:")
+
+# ------------------------------------------------------------------- C13
+m('C13', 'std: noise_floor not squared', SURV,
+  "std += self.noise_floor**2", "std += self.noise_floor", 'C13.N1')
+m('C13', 'std: relative error without abs of data', SURV,
+  "std += np.abs(self.relative_error*self.data.observed)**2",
+  "std += np.abs(self.relative_error)**2", 'C13.N1')
+m('C13', 'misfit: /2 dropped', SIMS,
+  "self._misfit = np.sum(weights*(residual.conj()*residual)).real/2",
+  "self._misfit = np.sum(weights*(residual.conj()*residual)).real", 'C13.N1')
+m('C13', 'misfit: weights = std**-1', SIMS,
+  "self.data['weights'] = std**-2", "self.data['weights'] = std**-1", 'C13.N1')
+m('C13', 'layered misfit twin differs', MP,
+  "misfit = np.sum(wgt*(res.conj()*res)).real/2",
+  "misfit = np.sum(wgt*(res.conj()*res)).real", 'C13.N1')
+m('C13', 'add_noise: in-place halving (defect F3 back)', SURV,
+  "min_amplitude = min_amplitude/2.0", "min_amplitude /= 2.0", 'C13.N2')
+m('C13', 'add_noise: in-place scaling of relative error', SURV,
+  "        if self.standard_deviation is not None:\n            noise = random_noise(",
+  "        if self.standard_deviation is not None:\n            re = self.relative_error\n            if re is not None and not isinstance(re, float):\n                re *= 1.0\n            noise = random_noise(",
+  'C13.N2')
+m('C13', 'standard_deviation setter: <= 0 -> < 0', SURV,
+  "if np.any(standard_deviation <= 0.0):", "if np.any(standard_deviation < 0.0):",
+  'C13.N3')
+m('C13', '_set_nf_re: validation removed', SURV,
+  "            if np.any(value <= 0.0):", "            if False:", 'C13.N3')
+m('C13', 'select: receivers selection keyed with sources', SURV,
+  "selection['rec'] = receivers", "selection['rec'] = sources", 'C13.N4')
+m('C13', 'select: observed not cut', SURV,
+  "survey['data'][key] = self.data[key].sel(**selection)",
+  "survey['data'][key] = self.data[key].sel(**selection) if key != 'observed' else self.data[key]",
+  'C13.N4')
+m('C13', 'simulation writes noise attrs directly', SIMS,
+  "            # New observed data: reset everything that depends on them.\n",
+  "            self.survey._data.attrs['noise_floor'] = 1e-15\n", 'C13.N2')
+n('C13', 'add_noise: halving via multiplication', SURV,
+  "min_amplitude = min_amplitude/2.0", "min_amplitude = 0.5*min_amplitude")
+n('C13', 'misfit: factor order', SIMS,
+  "self._misfit = np.sum(weights*(residual.conj()*residual)).real/2",
+  "self._misfit = 0.5*np.sum((residual*residual.conj())*weights).real")
+n('C13', 'add_noise: in-place on a fresh local copy', SURV,
+  "min_amplitude = min_amplitude/2.0",
+  "min_amplitude = np.array(min_amplitude, dtype=float).copy()\n                min_amplitude /= 2.0")
